@@ -363,6 +363,10 @@ def concurrent_stage(rep):
 
 
 def run(tier, seed, rep):
+    # histories of several requests on one object (mc/sessions.py): a delivered frame answers the request it is delivered to
+    from .. import sessions
+    _ses = sessions.explore_sessions(tier, seed, {'C01'}, light=True)
+    rep.add_many([v for v in _ses.violations if v['prop'] == 'C01'])
     ncross = cross_command_stage(rep) + concurrent_stage(rep)
     jobs = []
     for framing in ('rtu', 'tcp', 'aa55'):
@@ -402,7 +406,7 @@ def run(tier, seed, rep):
                                 dict(part='K', framing=framing, name=name, ka=ka, prior=prior,
                                      data='|'.join(x.hex() for x in data) if isinstance(data, tuple) else data.hex()),
                                 dict(cause=cause, earlier_request=prior))
-    cov = dict(evaluations=total + nt + ncross, distinct_nontrivial=nontriv, cross_command_evaluations=ncross,
+    cov = dict(session_histories=_ses.executions, evaluations=total + nt + ncross, distinct_nontrivial=nontriv, cross_command_evaluations=ncross,
                rule='strings = every prefix + every single-bit flip of every canonical frame, field-grammar product '
                     '(header x unit x function x byte count x bytes present x checksum variant x trailing; echoed '
                     'register/value variants for writes; AA55 length/type/checksum variants), all strings of length<=2 '
@@ -417,6 +421,11 @@ def run(tier, seed, rep):
 
 
 def replay(r):
+    if r['part'] == 'session':
+        from .. import sessions
+        out = sessions.replay(r)
+        out['violations'] = [m for m in out['violations'] if m[0] == 'C01']
+        return out
     if r['part'] == 'C':
         from ..findings import Report
         rp = Report('C01')
